@@ -109,3 +109,102 @@ func init() {
 	addMutant(Mutant{Prop: "C08", Name: "layout-equivalent-by-kind", File: "ssa/type.go",
 		Old: "\t\tif existingFields[i].String() != rawFields[i].String() {", New: "\t\tif existingFields[i].TypeKind() != rawFields[i].TypeKind() {", Expect: "R08.8"})
 }
+
+// checkPtrBytesStruct: the pointer-prefix of a struct ends after the LAST field that contains pointers: the
+// index of that field and its own pointer-prefix must be remembered together.
+func checkPtrBytesStruct(c *Ctx, ap *packages.Package) {
+	fd := findFunc(ap, "Builder.PtrBytes")
+	if fd == nil {
+		c.Undecided("R08.1", "abi.Builder.PtrBytes struct arm", 0, "function not found")
+		return
+	}
+	arms, _ := typeSwitchArms(fd)
+	cc := arms["Struct"]
+	if cc == nil {
+		c.Undecided("R08.1", "abi.Builder.PtrBytes struct arm", fd.Pos(), "no arm for *types.Struct")
+		return
+	}
+	// return <offset of fields[idx]> + <pb>
+	var idxVar, pbVar string
+	ast.Inspect(cc, func(n ast.Node) bool {
+		r, ok := n.(*ast.ReturnStmt)
+		if !ok || len(r.Results) != 1 {
+			return true
+		}
+		be, ok := ast.Unparen(r.Results[0]).(*ast.BinaryExpr)
+		if !ok || be.Op != token.ADD {
+			return true
+		}
+		if id, ok := ast.Unparen(be.Y).(*ast.Ident); ok {
+			pbVar = id.Name
+		}
+		ast.Inspect(be.X, func(x ast.Node) bool {
+			if ix, ok := x.(*ast.IndexExpr); ok {
+				if id, ok := ix.Index.(*ast.Ident); ok {
+					idxVar = id.Name
+				}
+			}
+			return true
+		})
+		return true
+	})
+	if idxVar == "" || pbVar == "" {
+		c.Undecided("R08.1", "abi.Builder.PtrBytes struct arm", cc.Pos(), "result is not `offset(fields[i]) + prefix`")
+		return
+	}
+	// every assignment to pbVar and to idxVar inside the loop must sit in the same block
+	blockOf := func(name string) []ast.Node {
+		var out []ast.Node
+		ast.Inspect(cc, func(n ast.Node) bool {
+			as, ok := n.(*ast.AssignStmt)
+			if !ok {
+				return true
+			}
+			for _, l := range as.Lhs {
+				if id, ok := l.(*ast.Ident); ok && id.Name == name {
+					chain := enclosingStmts(cc, as)
+					// innermost enclosing block or if statement (an assignment in an if-init runs on both outcomes)
+					for i := len(chain) - 2; i >= 0; i-- {
+						switch chain[i].(type) {
+						case *ast.BlockStmt, *ast.IfStmt:
+							out = append(out, chain[i])
+							i = -1
+						}
+					}
+				}
+			}
+			return true
+		})
+		return out
+	}
+	inLoop := func(nodes []ast.Node) []ast.Node {
+		var out []ast.Node
+		for _, n := range nodes {
+			for _, anc := range enclosingStmts(cc, n) {
+				if _, ok := anc.(*ast.ForStmt); ok {
+					out = append(out, n)
+					break
+				}
+				if _, ok := anc.(*ast.RangeStmt); ok {
+					out = append(out, n)
+					break
+				}
+			}
+		}
+		return out
+	}
+	ib, pb := inLoop(blockOf(idxVar)), inLoop(blockOf(pbVar))
+	same := len(ib) > 0 && len(ib) == len(pb)
+	for i := range ib {
+		if i < len(pb) && ib[i] != pb[i] {
+			same = false
+		}
+	}
+	c.Check(same, "R08.1", "abi.Builder.PtrBytes struct arm keeps (field, prefix) together", cc.Pos(), idxVar+" and "+pbVar+" are assigned in the same block",
+		"the pointer-prefix "+pbVar+" is overwritten on iterations that do not update "+idxVar+": for struct{p *int; x int} the result is offset(p)+PtrBytes(x) = 0 instead of 8, so a struct with a pointer followed by a scalar is described as pointer-free")
+}
+
+func init() {
+	addMutant(Mutant{Prop: "C08", Name: "ptrbytes-prefix-overwritten", File: "ssa/abi/type.go",
+		Old: "\t\t\tif pb := b.PtrBytes(f.Type()); pb != 0 {\n\t\t\t\tfield = i\n\t\t\t\tbytes = pb\n\t\t\t}", New: "\t\t\tif bytes = b.PtrBytes(f.Type()); bytes != 0 {\n\t\t\t\tfield = i\n\t\t\t}", Expect: "R08.1 abi.Builder.PtrBytes struct arm"})
+}
